@@ -15,7 +15,17 @@ let rnd_list (seed : int) (n : int) : BinNums.coq_N list =
 
 let tagn s = n_of_int (int_of_string s)
 
+(* key flags through the API: start = "default" or the hex of a parsed field; combo = bit i set -> the i-th setter (true) *)
+let kflags start combo =
+  let f0 = if start = "default" then KeyFlagsObj.kf_default else KeyFlagsObj.kf_parse (bytes_of_hex start) in
+  let setters = [(false, 1); (false, 2); (false, 4); (false, 8); (false, 16); (false, 32); (false, 128); (true, 4); (true, 8)] in
+  let (f, _) = Stdlib.List.fold_left (fun (f, i) (second, mask) ->
+      ((if combo land (1 lsl i) <> 0 then KeyFlagsObj.kf_set true second (n_of_int mask) true f else f), i + 1)) (f0, 0) setters in
+  let w = KeyFlagsObj.kf_ser f in
+  let back = KeyFlagsObj.kf_parse w in
+  hex_of_bytes w ^ " " ^ string_of_int (int_of_n (KeyFlagsObj.kf_write_len f)) ^ " " ^ (if back = f then "1" else "0")
 let handle = function
+  | ["kflags"; start; combo] -> kflags start (int_of_string combo)
   | ["gen"; tag; seed] ->
     let f = Packets.body_fmt (tagn tag) in
     let (v, _) = Fmt.gen f (rnd_list (int_of_string seed) 4000) in
